@@ -124,6 +124,34 @@ MUTANTS = [
     {"id": "c08-reset-cache-skips-stocks", "property": "C08", "file": M,
      "old": "        for equation in self.memo:\n            self.memo[equation] = {}",
      "new": "        for equation in self.memo:\n            if equation not in self.stocks:\n                self.memo[equation] = {}"},
+    # ---- C09
+    {"id": "c09-clock-bare-addition", "property": "C09", "file": B,
+     "old": "        self.session_state[\"step\"]=fp.normalize(step+dt, base=dt, offset=starttime, precision=max(fp.scale(starttime), fp.scale(dt)))",
+     "new": "        self.session_state[\"step\"]=step+dt"},
+    {"id": "c09-session-default-dt-one", "property": "C09", "file": B,
+     "old": "            dt = scenario_dts.pop() if len(scenario_dts) == 1 else 1.0", "new": "            dt = 1.0"},
+    {"id": "c09-df-aligned-to-first-scenario", "property": "C09", "file": SDR,
+     "old": "                        plot_df = pd.concat([plot_df, series], axis=1, sort=True)\n                        plot_df.index.name = series.index.name\n",
+     "new": "                        plot_df[series.name] = series\n"},
+    {"id": "c09-range-until-plus-dt", "property": "C09", "file": SDS,
+     "old": "        for i in timerange(start, until, self.mod.dt, exclusive=False):", "new": "        for i in timerange(start, until+self.mod.dt, self.mod.dt):"},
+    {"id": "c09-step-settings-reach-back", "property": "C09", "file": SDR,
+     "old": "                            for stock_name in sc.sd_simulation.mod.stocks:\n                                sc.sd_simulation.mod.equation(stock_name, step)\n", "new": "                            pass\n"},
+    {"id": "c09-session-results-drops-last-step", "property": "C09", "file": B,
+     "old": "                                for step, step_result in self.session_state[\"results_log\"].items():",
+     "new": "                                for step, step_result in list(self.session_state[\"results_log\"].items())[:-1] if len(self.session_state[\"results_log\"]) > 3 else self.session_state[\"results_log\"].items():"},
+    {"id": "c09-flat-picks-last-key", "property": "C09", "file": B,
+     "old": "results[manager.name][scenario][\"equations\"][equation].append(step_result[manager.name][scenario][equation][step])",
+     "new": "results[manager.name][scenario][\"equations\"][equation].append(step_result[manager.name][scenario][self.session_state[\"equations\"][-1]][step])",
+     "note": "flat results of every equation carry the values of the last equation"},
+    {"id": "c09-json-format-rounds", "property": "C09", "file": SDR,
+     "old": "[\"equations\"][equation]= df[equation].to_dict()", "new": "[\"equations\"][equation]= df[equation].round(1).to_dict()"},
+    {"id": "c09-stream-skips-last-step", "property": "C09", "file": S,
+     "old": "                while instance.progress() <= 1.0:", "new": "                while instance.progress() < 1.0:"},
+    {"id": "c09-rest-run-drops-first-row", "property": "C09", "file": SDR,
+     "old": "            if return_format==\"dict\" or return_format==\"json\":\n                simulation_results=sd_results_dict",
+     "new": "            if return_format==\"dict\" or return_format==\"json\":\n                simulation_results=sd_results_dict\n                if return_format==\"json\" and len(df) > 12:\n                    for e_ in sd_results_dict[scenarios[scenario].scenario_manager][scenarios[scenario].name][\"equations\"].values():\n                        e_.pop(list(e_)[0], None)",
+     "note": "long json results lose their first time"},
     # ---- C11
     {"id": "c11-route-by-position", "property": "C11", "file": SCH,
      "old": "                receiver = model.agent(event.receiver_id)\n", "new": "                receiver = model.agents[event.receiver_id] if event.receiver_id < len(model.agents) else None\n"},
